@@ -52,6 +52,23 @@ CHECKS = {
          "Preflight grant is defined in Layer A from configured methods or the methods routable at the URL; each response of a request "
          "sequence on ONE real filter instance is judged against its own URL.", "6 C09",
          "Trusted as for C08; Access-Control-Request-Method is upper case; routable methods come from the harness's fixed route table."),
+ "C06": ("TLC exhaustive model checking of MC_Dispatch (Container.dispatch as a state machine, one action per code step; the Layer A monitor "
+         "Dispatch!Step accepts every behaviour; counter-model SharedChain refuted) + replay of every configuration on the real Container "
+         "(Dispatch, ServeHTTP, HandleWithFilter; two requests in sequence) + TLC trace validation (DispatchTrace, clauses C06.*) of event logs "
+         "written by generated filters/handlers, incl. random chains of up to 15 filters and 8-goroutine batches (per-request projection)",
+         "Order, exactly-once, short-circuit, pair/attribute propagation and the error-path rule are enabling conditions of the monitor's "
+         "actions; every per-request event log of the real code must be a behaviour of the monitor.", "6 C06", "Trusted: TLC, Json module, net/http/httptest, compress/*; filters call ProcessFilter at most once; payload fidelity enters the specification as logged booleans."),
+ "C07": ("same pipeline; the monitor's acquire/release ledger (C07.once) and the pure coding-decision clauses C07.label / mention / enabled / pre / "
+         "none / payload evaluated by TLC on every real response (body decoded to EOF by the harness, payloads 0 B - 1 MiB, all entry points, "
+         "providers, outcome kinds incl. recovered panics)",
+         "When and how often coding / closing / releasing may happen is decided by the specification; DEFLATE itself is outside it.",
+         "6 C07", "Trusted: TLC, Json module, net/http/httptest, compress/*; filters call ProcessFilter at most once; payload fidelity enters the specification as logged booleans."),
+ "C10": ("same pipeline; every crash point of MC_Dispatch (each filter before/after passing control, the target) x recovery x encoding x entry "
+         "point replayed 1:1; clauses C10.* of the monitor (recover exactly once, nothing after the panic, no leak, escape iff recovery off) plus "
+         "status / usable (probe requests equal to a never-panicked twin, Container.Add completes); counter-models DefersSwapped and "
+         "NoCloseOnPanic refuted by TLC",
+         "Crash points are enumerated by TLC, not sampled; the state left behind is observed by follow-up requests and the compressor ledger.",
+         "6 C10", "Trusted: TLC, Json module, net/http/httptest, compress/*; filters call ProcessFilter at most once; payload fidelity enters the specification as logged booleans."),
 }
 
 NOT_YET = "check under construction in this round; see DESIGN.md section 13 (build order)"
